@@ -13,7 +13,7 @@
       7. abstract one-step convergence theorem (discrete Gronwall) and its instance for the kernel. *)
 From Coq Require Import Reals Lra Lia.
 From Coquelicot Require Import Coquelicot.
-From PV Require Import Base.RealTac Spec.Ellipsoid Spec.NavODE Gen.NumbaIntegrate Model.KernelHand.
+From PV Require Import Base.RealTac Spec.Ellipsoid Spec.NavODE Gen.NumbaIntegrate Gen.C01Gen Model.KernelHand.
 Open Scope R_scope.
 
 (** * 1. Characterising lemmas: generated kernel step = hand model *)
@@ -822,4 +822,369 @@ Proof.
              (h_prv F0) (h_prv F1) (h_prv F2) (h_cur F0) (h_cur F1) (h_cur F2)); eassumption.
   - eapply (incr_dv2_deriv (h_prv G0) (h_prv G1) (h_prv G2) (h_cur G0) (h_cur G1) (h_cur G2)
              (h_prv F0) (h_prv F1) (h_prv F2) (h_cur F0) (h_cur F1) (h_cur F2)); eassumption.
+Qed.
+
+(** the same for the GENERATED per-row formulas of compute_increments_from_imu (Gen/C01Gen.v) *)
+Section IncChar.
+Variables dt a0 a1 a2 e0 e1 e2 fa0 fa1 fa2 fe0 fe1 fe2 t0 : R.
+Notation GARGS f := (f dt a0 a1 a2 e0 e1 e2 fa0 fa1 fa2 fe0 fe1 fe2 t0) (only parsing).
+Ltac inc_char :=
+  autounfold with inc_rate_db;
+  unfold h_rate_theta0, h_rate_theta1, h_rate_theta2, h_rate_dv0, h_rate_dv1, h_rate_dv2, h_rate_inc,
+    h_incr_theta0, h_incr_theta1, h_incr_theta2, h_incr_dv0, h_incr_dv1, h_incr_dv2,
+    h_cross0, h_cross1, h_cross2; ring_div.
+Lemma inc_rate_odt_char : GARGS inc_rate_odt = dt.
+Proof. unfold inc_rate_odt. ring. Qed.
+Lemma inc_incr_odt_char : GARGS inc_incr_odt = dt.
+Proof. unfold inc_incr_odt. ring. Qed.
+Lemma inc_rate_th0_char : GARGS inc_rate_th0 = h_rate_theta0 dt a0 a1 a2 e0 e1 e2.
+Proof. unfold inc_rate_th0. inc_char. Qed.
+Lemma inc_rate_th1_char : GARGS inc_rate_th1 = h_rate_theta1 dt a0 a1 a2 e0 e1 e2.
+Proof. unfold inc_rate_th1. inc_char. Qed.
+Lemma inc_rate_th2_char : GARGS inc_rate_th2 = h_rate_theta2 dt a0 a1 a2 e0 e1 e2.
+Proof. unfold inc_rate_th2. inc_char. Qed.
+Lemma inc_rate_dv0_char : GARGS inc_rate_dv0 = h_rate_dv0 dt a0 a1 a2 e0 e1 e2 fa0 fa1 fa2 fe0 fe1 fe2.
+Proof. unfold inc_rate_dv0. inc_char. Qed.
+Lemma inc_rate_dv1_char : GARGS inc_rate_dv1 = h_rate_dv1 dt a0 a1 a2 e0 e1 e2 fa0 fa1 fa2 fe0 fe1 fe2.
+Proof. unfold inc_rate_dv1. inc_char. Qed.
+Lemma inc_rate_dv2_char : GARGS inc_rate_dv2 = h_rate_dv2 dt a0 a1 a2 e0 e1 e2 fa0 fa1 fa2 fe0 fe1 fe2.
+Proof. unfold inc_rate_dv2. inc_char. Qed.
+Lemma inc_incr_th0_char : GARGS inc_incr_th0 = h_incr_theta0 a0 a1 a2 e0 e1 e2.
+Proof. unfold inc_incr_th0. inc_char. Qed.
+Lemma inc_incr_th1_char : GARGS inc_incr_th1 = h_incr_theta1 a0 a1 a2 e0 e1 e2.
+Proof. unfold inc_incr_th1. inc_char. Qed.
+Lemma inc_incr_th2_char : GARGS inc_incr_th2 = h_incr_theta2 a0 a1 a2 e0 e1 e2.
+Proof. unfold inc_incr_th2. inc_char. Qed.
+Lemma inc_incr_dv0_char : GARGS inc_incr_dv0 = h_incr_dv0 a0 a1 a2 e0 e1 e2 fa0 fa1 fa2 fe0 fe1 fe2.
+Proof. unfold inc_incr_dv0. inc_char. Qed.
+Lemma inc_incr_dv1_char : GARGS inc_incr_dv1 = h_incr_dv1 a0 a1 a2 e0 e1 e2 fa0 fa1 fa2 fe0 fe1 fe2.
+Proof. unfold inc_incr_dv1. inc_char. Qed.
+Lemma inc_incr_dv2_char : GARGS inc_incr_dv2 = h_incr_dv2 a0 a1 a2 e0 e1 e2 fa0 fa1 fa2 fe0 fe1 fe2.
+Proof. unfold inc_incr_dv2. inc_char. Qed.
+End IncChar.
+
+(** rate-type sensor, generated formulas: epoch t0, samples w(t0), w(t0 + dt), f(t0), f(t0 + dt) *)
+Lemma increments_consistent_rate_gen (w0 w1 w2 f0 f1 f2 : R -> R) (t0 : R) :
+  ex_derive w0 t0 -> ex_derive w1 t0 -> ex_derive w2 t0 ->
+  ex_derive f0 t0 -> ex_derive f1 t0 -> ex_derive f2 t0 ->
+  let row := fun (out : R -> R -> R -> R -> R -> R -> R -> R -> R -> R -> R -> R -> R -> R -> R) (dt : R) =>
+    out dt (w0 t0) (w1 t0) (w2 t0) (w0 (t0 + dt)) (w1 (t0 + dt)) (w2 (t0 + dt))
+           (f0 t0) (f1 t0) (f2 t0) (f0 (t0 + dt)) (f1 (t0 + dt)) (f2 (t0 + dt)) t0 in
+  (forall dt, row inc_rate_odt dt = dt) /\
+  (row inc_rate_th0 0 = 0 /\ row inc_rate_th1 0 = 0 /\ row inc_rate_th2 0 = 0 /\
+   row inc_rate_dv0 0 = 0 /\ row inc_rate_dv1 0 = 0 /\ row inc_rate_dv2 0 = 0) /\
+  (is_derive (row inc_rate_th0) 0 (w0 t0) /\ is_derive (row inc_rate_th1) 0 (w1 t0) /\
+   is_derive (row inc_rate_th2) 0 (w2 t0)) /\
+  (is_derive (row inc_rate_dv0) 0 (f0 t0) /\ is_derive (row inc_rate_dv1) 0 (f1 t0) /\
+   is_derive (row inc_rate_dv2) 0 (f2 t0)).
+Proof.
+  intros E0 E1 E2 E3 E4 E5. cbv zeta.
+  (* shift the epoch to 0 *)
+  assert (S : forall g : R -> R, ex_derive g t0 -> ex_derive (fun s => g (t0 + s)) 0).
+  { intros g [l Hg]. exists l. auto_derive; [|ring].
+    replace (t0 + 0) with t0 by ring. eexists; exact Hg. }
+  pose proof (increments_consistent_rate (fun s => w0 (t0 + s)) (fun s => w1 (t0 + s)) (fun s => w2 (t0 + s))
+                (fun s => f0 (t0 + s)) (fun s => f1 (t0 + s)) (fun s => f2 (t0 + s))
+                (S _ E0) (S _ E1) (S _ E2) (S _ E3) (S _ E4) (S _ E5)) as H.
+  cbv zeta beta in H. replace (t0 + 0) with t0 in H by ring.
+  destruct H as [[Z0 [Z1 [Z2 [Z3 [Z4 Z5]]]]] [[T0 [T1 T2]] [V0 [V1 V2]]]].
+  split; [intro dt; apply inc_rate_odt_char|].
+  split; [rewrite inc_rate_th0_char, inc_rate_th1_char, inc_rate_th2_char,
+            inc_rate_dv0_char, inc_rate_dv1_char, inc_rate_dv2_char;
+          replace (t0 + 0) with t0 by ring; repeat split; assumption|].
+  split; (split; [|split]).
+  - eapply is_derive_ext; [intro t; symmetry; apply inc_rate_th0_char | exact T0].
+  - eapply is_derive_ext; [intro t; symmetry; apply inc_rate_th1_char | exact T1].
+  - eapply is_derive_ext; [intro t; symmetry; apply inc_rate_th2_char | exact T2].
+  - eapply is_derive_ext; [intro t; symmetry; apply inc_rate_dv0_char | exact V0].
+  - eapply is_derive_ext; [intro t; symmetry; apply inc_rate_dv1_char | exact V1].
+  - eapply is_derive_ext; [intro t; symmetry; apply inc_rate_dv2_char | exact V2].
+Qed.
+
+(** increment-type sensor, generated formulas: G, F antiderivatives of the signals around the epoch 0;
+    previous-row sample = integral over [-dt, 0], current-row sample = integral over [0, dt] *)
+Lemma increments_consistent_increment_gen (G0 G1 G2 F0 F1 F2 : R -> R) (w0 w1 w2 f0 f1 f2 t0 : R) :
+  is_derive G0 0 w0 -> is_derive G1 0 w1 -> is_derive G2 0 w2 ->
+  is_derive F0 0 f0 -> is_derive F1 0 f1 -> is_derive F2 0 f2 ->
+  let row := fun (out : R -> R -> R -> R -> R -> R -> R -> R -> R -> R -> R -> R -> R -> R -> R) (dt : R) =>
+    out dt (h_prv G0 dt) (h_prv G1 dt) (h_prv G2 dt) (h_cur G0 dt) (h_cur G1 dt) (h_cur G2 dt)
+           (h_prv F0 dt) (h_prv F1 dt) (h_prv F2 dt) (h_cur F0 dt) (h_cur F1 dt) (h_cur F2 dt) t0 in
+  (forall dt, row inc_incr_odt dt = dt) /\
+  (row inc_incr_th0 0 = 0 /\ row inc_incr_th1 0 = 0 /\ row inc_incr_th2 0 = 0 /\
+   row inc_incr_dv0 0 = 0 /\ row inc_incr_dv1 0 = 0 /\ row inc_incr_dv2 0 = 0) /\
+  (is_derive (row inc_incr_th0) 0 w0 /\ is_derive (row inc_incr_th1) 0 w1 /\ is_derive (row inc_incr_th2) 0 w2) /\
+  (is_derive (row inc_incr_dv0) 0 f0 /\ is_derive (row inc_incr_dv1) 0 f1 /\ is_derive (row inc_incr_dv2) 0 f2).
+Proof.
+  intros D0 D1 D2 D3 D4 D5. cbv zeta.
+  pose proof (increments_consistent_increment G0 G1 G2 F0 F1 F2 w0 w1 w2 f0 f1 f2 D0 D1 D2 D3 D4 D5) as H.
+  cbv zeta beta in H.
+  destruct H as [[Z0 [Z1 [Z2 [Z3 [Z4 Z5]]]]] [[T0 [T1 T2]] [V0 [V1 V2]]]].
+  split; [intro dt; apply inc_incr_odt_char|].
+  split; [rewrite inc_incr_th0_char, inc_incr_th1_char, inc_incr_th2_char,
+            inc_incr_dv0_char, inc_incr_dv1_char, inc_incr_dv2_char; repeat split; assumption|].
+  split; (split; [|split]).
+  - eapply is_derive_ext; [intro t; symmetry; apply inc_incr_th0_char | exact T0].
+  - eapply is_derive_ext; [intro t; symmetry; apply inc_incr_th1_char | exact T1].
+  - eapply is_derive_ext; [intro t; symmetry; apply inc_incr_th2_char | exact T2].
+  - eapply is_derive_ext; [intro t; symmetry; apply inc_incr_dv0_char | exact V0].
+  - eapply is_derive_ext; [intro t; symmetry; apply inc_incr_dv1_char | exact V1].
+  - eapply is_derive_ext; [intro t; symmetry; apply inc_incr_dv2_char | exact V2].
+Qed.
+
+(** * 7. One-step methods: stability + local error O(h^2) => global error O(h) (discrete Gronwall) *)
+
+Section OneStep.
+Variable X : Type.
+Variable dist : X -> X -> R.
+Hypothesis dist_triangle : forall x y z, dist x z <= dist x y + dist y z.
+Hypothesis dist_refl : forall x, dist x x = 0.
+Variable D : X -> Prop.                (* the region on which the step is known to be stable *)
+Variable Phi : nat -> X -> X.          (* the n-th step of length h (inputs may differ per step) *)
+Variable sol : R -> X.                 (* the exact solution *)
+Variables L C T h : R.
+Hypothesis HL : 0 < L.
+Hypothesis HC : 0 <= C.
+Hypothesis Hh : 0 < h.
+Hypothesis stability : forall n x y, D x -> D y -> dist (Phi n x) (Phi n y) <= (1 + L * h) * dist x y.
+Hypothesis local_error : forall n, INR (S n) * h <= T ->
+  dist (Phi n (sol (INR n * h))) (sol (INR (S n) * h)) <= C * (h * h).
+Hypothesis sol_in_D : forall n, INR n * h <= T -> D (sol (INR n * h)).
+Hypothesis num_in_D : forall n, INR n * h <= T -> D (onestep_run Phi (sol 0) n).
+
+Lemma global_error_pow (n : nat) : INR n * h <= T ->
+  dist (onestep_run Phi (sol 0) n) (sol (INR n * h)) <= C * h / L * ((1 + L * h) ^ n - 1).
+Proof.
+  induction n as [|n IH]; intro Hn.
+  - simpl. rewrite Rmult_0_l, dist_refl. lra.
+  - assert (Hn' : INR n * h <= T) by (rewrite S_INR in Hn; nra).
+    specialize (IH Hn').
+    cbn [onestep_run].
+    eapply Rle_trans; [apply (dist_triangle _ (Phi n (sol (INR n * h))))|].
+    pose proof (stability n _ _ (num_in_D n Hn') (sol_in_D n Hn')) as Hs.
+    pose proof (local_error n Hn) as Hl.
+    assert (Hq : 0 < 1 + L * h) by nra.
+    assert (Hm : (1 + L * h) * dist (onestep_run Phi (sol 0) n) (sol (INR n * h)) <=
+                 (1 + L * h) * (C * h / L * ((1 + L * h) ^ n - 1))).
+    { apply Rmult_le_compat_l; lra. }
+    replace (C * h / L * ((1 + L * h) ^ S n - 1))
+      with ((1 + L * h) * (C * h / L * ((1 + L * h) ^ n - 1)) + C * (h * h)) by (simpl; field; lra).
+    lra.
+Qed.
+
+Lemma pow_le_exp (n : nat) : INR n * h <= T -> (1 + L * h) ^ n <= exp (L * T).
+Proof.
+  intro Hn.
+  assert (H1 : (1 + L * h) ^ n <= exp (L * h) ^ n).
+  { apply pow_incr. split; [nra | apply exp_ineq1_le]. }
+  assert (H2 : exp (L * h) ^ n = exp (INR n * (L * h))).
+  { clear. induction n as [|n IH]; [simpl; rewrite Rmult_0_l, exp_0; reflexivity|].
+    rewrite S_INR. simpl. rewrite IH, <- exp_plus. f_equal. ring. }
+  rewrite H2 in H1. eapply Rle_trans; [exact H1|].
+  destruct (Req_dec (INR n * (L * h)) (L * T)) as [E|NE]; [rewrite E; lra|].
+  left. apply exp_increasing. assert (INR n * (L * h) <= L * T) by nra. lra.
+Qed.
+
+Lemma one_step_convergence_sec (n : nat) : INR n * h <= T ->
+  dist (onestep_run Phi (sol 0) n) (sol (INR n * h)) <= C * h * (exp (L * T) - 1) / L.
+Proof.
+  intro Hn. pose proof (global_error_pow n Hn) as H.
+  pose proof (pow_le_exp n Hn) as Hp.
+  assert (0 <= C * h / L).
+  { apply Rmult_le_pos; [nra | left; apply Rinv_0_lt_compat; exact HL]. }
+  replace (C * h * (exp (L * T) - 1) / L) with (C * h / L * (exp (L * T) - 1)) by (field; lra).
+  nra.
+Qed.
+End OneStep.
+
+Lemma one_step_convergence (X : Type) (dist : X -> X -> R) (D : X -> Prop)
+      (Phi : nat -> X -> X) (sol : R -> X) (L C T h : R) :
+  (forall x y z, dist x z <= dist x y + dist y z) -> (forall x, dist x x = 0) ->
+  0 < L -> 0 <= C -> 0 < h ->
+  (forall n x y, D x -> D y -> dist (Phi n x) (Phi n y) <= (1 + L * h) * dist x y) ->
+  (forall n, INR (S n) * h <= T -> dist (Phi n (sol (INR n * h))) (sol (INR (S n) * h)) <= C * (h * h)) ->
+  (forall n, INR n * h <= T -> D (sol (INR n * h))) ->
+  (forall n, INR n * h <= T -> D (onestep_run Phi (sol 0) n)) ->
+  forall n, INR n * h <= T ->
+  dist (onestep_run Phi (sol 0) n) (sol (INR n * h)) <= C * h * (exp (L * T) - 1) / L.
+Proof.
+  intros Tri Refl HL HC Hh Stab Loc SD ND n Hn.
+  exact (one_step_convergence_sec X dist Tri Refl D Phi sol L C T h HL HC Hh Stab Loc SD ND n Hn).
+Qed.
+
+(** the error at h is at most 1/(1-q) times the change under halving whenever halving the interval
+    contracts the error by a factor q < 1 (q = 1/2 for a first-order method in its asymptotic regime) *)
+Lemma error_le_halving_change (X : Type) (dist : X -> X -> R) (xh xh2 xs : X) (q : R) :
+  (forall x y z, dist x z <= dist x y + dist y z) ->
+  0 <= q < 1 -> dist xh2 xs <= q * dist xh xs ->
+  dist xh xs <= dist xh xh2 / (1 - q).
+Proof.
+  intros Tri [Hq0 Hq1] Hc. pose proof (Tri xh xh2 xs) as H.
+  apply Rmult_le_reg_r with (1 - q); [lra|].
+  replace (dist xh xh2 / (1 - q) * (1 - q)) with (dist xh xh2) by (field; lra). nra.
+Qed.
+
+(** the bound tends to 0 with h *)
+Lemma bound_tends_to_zero (L C T eps : R) : 0 < L -> 0 <= C -> 0 <= T -> 0 < eps ->
+  exists h0, 0 < h0 /\ forall h, 0 < h < h0 -> C * h * (exp (L * T) - 1) / L < eps.
+Proof.
+  intros HL HC HT He.
+  assert (HE : 0 <= exp (L * T) - 1).
+  { pose proof (exp_ineq1_le (L * T)). assert (0 <= L * T) by nra. lra. }
+  exists (eps * L / (C * (exp (L * T) - 1) + 1)).
+  assert (Hd : 0 < C * (exp (L * T) - 1) + 1) by nra.
+  split.
+  - apply Rdiv_lt_0_compat; nra.
+  - intros h [Hh0 Hh1].
+    apply Rmult_lt_reg_r with L; [exact HL|].
+    replace (C * h * (exp (L * T) - 1) / L * L) with (h * (C * (exp (L * T) - 1))) by (field; lra).
+    assert (h * (C * (exp (L * T) - 1) + 1) < eps * L).
+    { apply Rmult_lt_reg_r with (/ (C * (exp (L * T) - 1) + 1)); [apply Rinv_0_lt_compat; exact Hd|].
+      replace (h * (C * (exp (L * T) - 1) + 1) * / (C * (exp (L * T) - 1) + 1)) with h by (field; lra).
+      replace (eps * L * / (C * (exp (L * T) - 1) + 1)) with (eps * L / (C * (exp (L * T) - 1) + 1))
+        by (unfold Rdiv; ring).
+      exact Hh1. }
+    nra.
+Qed.
+
+(** ** The kernel as a one-step method on 15-tuples *)
+
+Lemma abs_tri (a b c : R) : Rabs (a - c) <= Rabs (a - b) + Rabs (b - c).
+Proof. replace (a - c) with ((a - b) + (b - c)) by ring. apply Rabs_triang. Qed.
+
+Lemma kdist_triangle (x y z : kstate) : kdist x z <= kdist x y + kdist y z.
+Proof.
+  unfold kdist.
+  pose proof (abs_tri (k_lat x) (k_lat y) (k_lat z)). pose proof (abs_tri (k_lon x) (k_lon y) (k_lon z)).
+  pose proof (abs_tri (k_alt x) (k_alt y) (k_alt z)). pose proof (abs_tri (k_VN x) (k_VN y) (k_VN z)).
+  pose proof (abs_tri (k_VE x) (k_VE y) (k_VE z)). pose proof (abs_tri (k_VD x) (k_VD y) (k_VD z)).
+  pose proof (abs_tri (k_C00 x) (k_C00 y) (k_C00 z)). pose proof (abs_tri (k_C01 x) (k_C01 y) (k_C01 z)).
+  pose proof (abs_tri (k_C02 x) (k_C02 y) (k_C02 z)). pose proof (abs_tri (k_C10 x) (k_C10 y) (k_C10 z)).
+  pose proof (abs_tri (k_C11 x) (k_C11 y) (k_C11 z)). pose proof (abs_tri (k_C12 x) (k_C12 y) (k_C12 z)).
+  pose proof (abs_tri (k_C20 x) (k_C20 y) (k_C20 z)). pose proof (abs_tri (k_C21 x) (k_C21 y) (k_C21 z)).
+  pose proof (abs_tri (k_C22 x) (k_C22 y) (k_C22 z)).
+  lra.
+Qed.
+
+Lemma kdist_refl (x : kstate) : kdist x x = 0.
+Proof. unfold kdist. rewrite !Rminus_eq_0, Rabs_R0. ring. Qed.
+
+(** End-to-end statement, PARTIAL: the two uniformity hypotheses (stability constant L on a region D
+    that contains the exact and the numerical solution, local error constant C along the exact
+    solution) are NOT proved for the concrete kernel; step_consistent only gives the pointwise
+    first-order consistency that makes a finite C plausible. *)
+Lemma strapdown_converges_partial (D : kstate -> Prop) (sol : R -> kstate) (inc : R -> nat -> kinc)
+      (L C T : R) :
+  0 < L -> 0 <= C ->
+  (* uniform stability of the kernel step on D *)
+  (forall h n x y, 0 < h -> D x -> D y ->
+     kdist (kstep h x (inc h n)) (kstep h y (inc h n)) <= (1 + L * h) * kdist x y) ->
+  (* uniform second-order local error along the exact solution *)
+  (forall h n, 0 < h -> INR (S n) * h <= T ->
+     kdist (kstep h (sol (INR n * h)) (inc h n)) (sol (INR (S n) * h)) <= C * (h * h)) ->
+  (* the exact and the numerical solution stay in D *)
+  (forall t, D (sol t)) ->
+  (forall h n, 0 < h -> INR n * h <= T -> D (krun h (inc h) (sol 0) n)) ->
+  forall h n, 0 < h -> INR n * h <= T ->
+    kdist (krun h (inc h) (sol 0) n) (sol (INR n * h)) <= C * h * (exp (L * T) - 1) / L.
+Proof.
+  intros HL HC Stab Loc SD ND h n Hh Hn. unfold krun.
+  apply (one_step_convergence kstate kdist D (fun m s => kstep h s (inc h m)) sol L C T h
+           kdist_triangle kdist_refl HL HC Hh).
+  - intros m x y Dx Dy. apply Stab; assumption.
+  - intros m Hm. apply Loc; assumption.
+  - intros m _. apply SD.
+  - intros m Hm. apply (ND h m Hh Hm).
+  - exact Hn.
+Qed.
+
+Lemma strapdown_converges_limit_partial (D : kstate -> Prop) (sol : R -> kstate) (inc : R -> nat -> kinc)
+      (L C T : R) :
+  0 < L -> 0 <= C -> 0 <= T ->
+  (forall h n x y, 0 < h -> D x -> D y ->
+     kdist (kstep h x (inc h n)) (kstep h y (inc h n)) <= (1 + L * h) * kdist x y) ->
+  (forall h n, 0 < h -> INR (S n) * h <= T ->
+     kdist (kstep h (sol (INR n * h)) (inc h n)) (sol (INR (S n) * h)) <= C * (h * h)) ->
+  (forall t, D (sol t)) ->
+  (forall h n, 0 < h -> INR n * h <= T -> D (krun h (inc h) (sol 0) n)) ->
+  forall eps, 0 < eps -> exists h0, 0 < h0 /\
+    forall h n, 0 < h < h0 -> INR n * h <= T ->
+      kdist (krun h (inc h) (sol 0) n) (sol (INR n * h)) < eps.
+Proof.
+  intros HL HC HT Stab Loc SD ND eps He.
+  destruct (bound_tends_to_zero L C T eps HL HC HT He) as [h0 [H0 Hb]].
+  exists h0. split; [exact H0|]. intros h n Hh Hn.
+  eapply Rle_lt_trans; [apply (strapdown_converges_partial D sol inc L C T HL HC Stab Loc SD ND h n); [lra | exact Hn]|].
+  apply Hb. exact Hh.
+Qed.
+
+(** * 8. Non-vacuity: the hypotheses of the theorems are satisfiable on concrete instances *)
+
+Lemma step_consistent_hyps_example :
+  let th0 := fun t : R => 1 * t in let th1 := fun t : R => -2 * t in let th2 := fun t : R => 3 * t in
+  let dv0 := fun t : R => 1 / 2 * t in let dv1 := fun t : R => -1 * t in let dv2 := fun t : R => -9 * t in
+  -90 < 45 < 90 /\ -1000000 <= 100 /\
+  th0 0 = 0 /\ th1 0 = 0 /\ th2 0 = 0 /\ dv0 0 = 0 /\ dv1 0 = 0 /\ dv2 0 = 0 /\
+  is_derive th0 0 1 /\ is_derive th1 0 (-2) /\ is_derive th2 0 3 /\
+  is_derive dv0 0 (1 / 2) /\ is_derive dv1 0 (-1) /\ is_derive dv2 0 (-9).
+Proof.
+  cbv zeta.
+  split; [lra|]. split; [lra|].
+  do 6 (split; [ring|]).
+  do 5 (split; [auto_derive; [trivial | ring]|]).
+  auto_derive; [trivial | ring].
+Qed.
+
+Lemma increments_rate_hyps_example :
+  let w := fun t : R => 1 + 2 * t in ex_derive w 0.
+Proof. cbv zeta. auto_derive. trivial. Qed.
+
+Lemma increments_increment_hyps_example :
+  let G := fun t : R => t + t * t in is_derive G 0 1.
+Proof. cbv zeta. auto_derive; [trivial | ring]. Qed.
+
+(** explicit Euler for x' = 1 on R: stable with L = 1, exact (C = 0); all hypotheses of
+    one_step_convergence hold with T = 10, h = 1/4 *)
+Lemma one_step_convergence_hyps_example :
+  let dist := fun x y : R => Rabs (x - y) in
+  let Phi := fun (n : nat) (x : R) => x + 1 / 4 in
+  let sol := fun t : R => t in
+  let D := fun _ : R => True in
+  (forall x y z, dist x z <= dist x y + dist y z) /\ (forall x, dist x x = 0) /\
+  0 < 1 /\ 0 <= 0 /\ 0 < 1 / 4 /\
+  (forall n x y, D x -> D y -> dist (Phi n x) (Phi n y) <= (1 + 1 * (1 / 4)) * dist x y) /\
+  (forall n, INR (S n) * (1 / 4) <= 10 ->
+     dist (Phi n (sol (INR n * (1 / 4)))) (sol (INR (S n) * (1 / 4))) <= 0 * (1 / 4 * (1 / 4))) /\
+  (forall n, INR n * (1 / 4) <= 10 -> D (sol (INR n * (1 / 4)))) /\
+  (forall n, INR n * (1 / 4) <= 10 -> D (onestep_run Phi (sol 0) n)).
+Proof.
+  cbv zeta. repeat split; try lra; trivial.
+  - intros x y z. apply abs_tri.
+  - intro x. rewrite Rminus_eq_0. apply Rabs_R0.
+  - intros n x y _ _. replace (x + 1 / 4 - (y + 1 / 4)) with (x - y) by ring.
+    pose proof (Rabs_pos (x - y)). lra.
+  - intros n _. rewrite S_INR.
+    replace (INR n * (1 / 4) + 1 / 4 - (INR n + 1) * (1 / 4)) with 0 by ring. rewrite Rabs_R0. lra.
+Qed.
+
+(** the hypotheses of strapdown_converges_partial are jointly satisfiable, here only in the trivial
+    case T = 0 (a single point); satisfiability for T > 0 is exactly the unproved part *)
+Lemma strapdown_converges_hyps_example :
+  let s0 := mk_kstate 45 10 100 1 2 3 1 0 0 0 1 0 0 0 1 in
+  let D := fun s : kstate => s = s0 in
+  let sol := fun _ : R => s0 in
+  let inc := fun (_ : R) (_ : nat) => mk_kinc 0 0 0 0 0 0 in
+  0 < 1 /\ 0 <= 0 /\
+  (forall h n x y, 0 < h -> D x -> D y ->
+     kdist (kstep h x (inc h n)) (kstep h y (inc h n)) <= (1 + 1 * h) * kdist x y) /\
+  (forall h n, 0 < h -> INR (S n) * h <= 0 ->
+     kdist (kstep h (sol (INR n * h)) (inc h n)) (sol (INR (S n) * h)) <= 0 * (h * h)) /\
+  (forall t, D (sol t)) /\
+  (forall h n, 0 < h -> INR n * h <= 0 -> D (krun h (inc h) (sol 0) n)).
+Proof.
+  cbv zeta. split; [lra|]. split; [lra|]. split; [|split; [|split]].
+  - intros h n x y Hh -> ->. rewrite !kdist_refl. lra.
+  - intros h n Hh Hn. exfalso. rewrite S_INR in Hn. pose proof (pos_INR n). nra.
+  - intro t. reflexivity.
+  - intros h n Hh Hn. destruct n as [|n]; [reflexivity|].
+    exfalso. rewrite S_INR in Hn. pose proof (pos_INR n). nra.
 Qed.
